@@ -139,3 +139,9 @@ void vm_value_macros_sweep(unsigned long long out[6])
 		}
 	}
 }
+
+/* ---------------------------------------------------------------- typed DER macros of der.h that no library source uses */
+#include <bee2/core/der.h>
+size_t vm_derPSTREnc(octet* der, const char* val) { return derPSTREnc(der, val); }
+size_t vm_derPSTRDec(char* val, size_t* len, const octet* der, size_t count) { return derPSTRDec(val, len, der, count); }
+size_t vm_derOCTDec3(const octet* der, size_t count, const octet* val, size_t len) { return derOCTDec3(der, count, val, len); }
